@@ -17,7 +17,7 @@ CHECKS = {
    note='The exhaustive five-class enumeration in the quantifier is bounded model checking and is not attempted; classes whose bases are reached only through import chains (not guaranteed to resolve by C04) are not judged.', ref='DESIGN.md 3/C05'),
  'C06': dict(cat='exploration', tech='deterministic simulation: seeded/exhaustive module-schedule exploration with cross-schedule state comparison',
    text='Core claim. The processing schedule (order of module registration = System.unprocessed_modules) is owned by the simulator; for every generated world all reachable schedules (<= 720) or the shipped order, its reverse and seeded samples are run through the real builder, and a canonical dump keyed by object identity (type, kind, docstring, resolved bases, linearisation, location for objects with <= 1 re-exporter) must be equal across schedules; for cyclic worlds bases and linearisation only, as the property says. Interleavings are measured by hashing the nested processModule trace and reads of half-built modules.',
-   note='Trusted: generator, dump projection, signature classifier. Real trees (maintainers' test packages, pairs of them, and in the thorough tier pure-Python distributions from /venv) run through the os.listdir + model.sorted seam. Root-cause classes still open are recorded as known findings; the others were repaired in /repo (fix: commits, see known_findings.json).', ref='DESIGN.md 3/C06'),
+   note='Trusted: generator, dump projection, signature classifier. Real trees (the maintainers test packages, pairs of them, and in the thorough tier pure-Python distributions from /venv) run through the os.listdir + model.sorted seam. Root-cause classes still open are recorded as known findings; the others were repaired in /repo (fix: commits, see known_findings.json).', ref='DESIGN.md 3/C06'),
  'C07': dict(cat='exploration', tech='deterministic simulation: schedule exploration + reference re-export model',
    text='Generated packages with one re-exporter per object (package or sibling module; plain, renamed, star import) and consumers inside the package or in another root importing from the defining module, the re-exporter or both; every schedule; oracle = documented re-export rule for the location (exactly once, under the exported name, nothing left at the old name) and the binding truth for every reference: import alias, base class, old/new qualified name of the object and of its members (find_object), Name.member through an alias, and - with the real linkers - docstring cross-references by local / old / new qualified name and annotations, whose href must be the url of the one documented object; the moved object must also be the re-exporting module's contents entry.',
    note='Re-exports through import chains or aliases are outside the quantifier and accepted at either location. Links are checked through the real linker objects on the model, not by crawling rendered pages.', ref='DESIGN.md 3/C07'),
